@@ -7,7 +7,7 @@ Every random choice comes from one SplitMix64 state, so a trace is reproducible 
   own    operation whose (projected) output the property under check speaks about
 """
 
-GEN_VERSION = 3
+GEN_VERSION = 4
 
 MASK64 = (1 << 64) - 1
 
@@ -603,6 +603,17 @@ def gen_C19(t, n):
                 t.emit("eq A B", "own")
                 t.emit("iter A", "own")
                 t.emit("iter B", "own")
+        elif c < 33:
+            # same key, same value, (possibly) different host bits: equal only if the stored
+            # representations are equal under the key type's own equality
+            k = t.u.key()
+            v = t.v()
+            t.emit("copy A B", "own")
+            t.emit("insert A %s %d" % (t.u.fmt(k), v), "own")
+            t.emit("insert B %s %d" % (t.u.fmt(k), v), "own")
+            t.emit("eq A B", "own")
+            t.emit("entry B %s occ_insert %d" % (t.u.fmt(k), v), "own")
+            t.emit("eq A B", "own")
         elif c < 40:
             t.emit("collect_self A", "own")
         elif c < 50:
